@@ -190,3 +190,60 @@ def make_bt0(height=3, select=("C09",)):
             E.acc.violation(dict(prop="C09", kind="backtrack-at-bottom", site="backtrack", cls=None, harness="heur"))
 
     return body
+
+
+VARH_NAMES = ["first_not_instantiated", "smallest_domain", "greatest_domain", "max_regret"]
+
+
+@register("varheur")
+def make_varheur(vname, ND=3, W=4, select=("C04",)):
+    """one call of a variable heuristic from an arbitrary level: whenever some decision domain is not instantiated the
+    heuristic returns one of them (never -1, never an instantiated or a non-decision domain)"""
+    select = set(select)
+
+    def body(E):
+        import nucs.heuristics.heuristics as H
+
+        i32, u16, u8, i64 = DType("int32"), DType("uint16"), DType("uint8"), DType("int64")
+        height = 3
+        top = E.choose(2, "top")
+        stack = core.empty((height, ND, 2), i32)
+        st = core.array([top], dtype=u8)
+        lo = [as_z3int(stack[top, d, 0]) for d in range(ND)]
+        hi = [as_z3int(stack[top, d, 1]) for d in range(ND)]
+        for d in range(ND):
+            E.solver.add(lo[d] <= hi[d], lo[d] >= (0 if vname == "max_regret" else -(1 << 30)), hi[d] <= (W - 1 if vname == "max_regret" else (1 << 30)))
+        # decision domains: any non-empty subset, in any order without repetition
+        subsets = [[0, 1, 2], [2, 0], [1], [0, 2, 1], [2]]
+        dec = subsets[E.choose(len(subsets), "decision")]
+        if vname == "max_regret":
+            costs = [[z3.Int(f"cost{d}_{v}") for v in range(W)] for d in range(ND)]
+            for row in costs:
+                for c in row:
+                    E.solver.add(c >= 1, c <= 3)
+            params = SArray([SymInt(c) for row in costs for c in row], (ND, W), dtype="int64")
+        else:
+            params = core.array([[]], dtype=i64)
+        fn = H.VAR_HEURISTIC_FCTS[getattr(H, "VAR_HEURISTIC_" + vname.upper())]
+        try:
+            r = fn(params, core.array(dec, dtype=u16), stack, st)
+        except Obligation as o:
+            E.acc.count("obligation:" + o.kind)
+            if o.model is not None:
+                E.acc.violation(dict(prop="C16" if "C16" in select else "C04", kind="varheur-" + o.kind, site=vname, cls=None, harness="varheur", detail=o.detail, decision=dec))
+            return
+        rz = as_z3int(r)
+        free = OR([lo[d] < hi[d] for d in dec])
+        good = OR([z3.And(rz == d, lo[d] < hi[d]) for d in dec])
+        E.acc.count("returned")
+        if E.query(z3.And(free, z3.Not(good))):
+            m = E.model()
+            v = dict(prop="C04", kind="no-variable-selected-although-one-is-free", site=vname, cls=None, harness="varheur", decision=dec, top=top, doms=[[E.ev(m, lo[d]), E.ev(m, hi[d])] for d in range(ND)], returned=E.ev(m, rz))
+            if vname == "max_regret":
+                v["costs"] = [[E.ev(m, c) for c in row] for row in costs]
+            E.acc.violation(v)
+        if E.query(z3.And(z3.Not(free), rz != -1)):
+            m = E.model()
+            E.acc.violation(dict(prop="C04", kind="variable-selected-although-none-is-free", site=vname, cls=None, harness="varheur", decision=dec, returned=E.ev(m, rz)))
+
+    return body
